@@ -143,4 +143,420 @@ theorem wf_run (s : State) (ops : List Op) (hw : WF s) : WF (run s ops) := by
   | nil => exact hw
   | cons op rest ih => exact ih (apply s op) (wf_apply s op hw)
 
+
+/-! ### iterating a duplicate-free tombstone table -/
+section live
+variable {K V : Type} [DecidableEq K]
+
+omit [DecidableEq K] in
+theorem mem_live (m : Tbl K V) (k : K) (v : V) : (k, v) ∈ Tbl.live m ↔ (k, some v) ∈ m := by
+  induction m with
+  | nil => simp [Tbl.live]
+  | cons hd t ih =>
+    obtain ⟨k', o⟩ := hd
+    cases o with
+    | none => simp [Tbl.live, ih]
+    | some v' => simp [Tbl.live, ih]
+
+omit [DecidableEq K] in
+theorem keys_live_sublist (m : Tbl K V) : (AMap.keys (Tbl.live m)).Sublist (AMap.keys m) := by
+  induction m with
+  | nil => simp [Tbl.live, AMap.keys]
+  | cons hd t ih =>
+    obtain ⟨k', o⟩ := hd
+    cases o with
+    | none => exact List.Sublist.cons _ ih
+    | some v' => exact List.Sublist.cons₂ _ ih
+
+omit [DecidableEq K] in
+theorem nodupKeys_live {m : Tbl K V} (hn : NodupKeys m) : NodupKeys (Tbl.live m) :=
+  List.Nodup.sublist (keys_live_sublist m) hn
+
+theorem get_eq_some_iff {m : Tbl K V} (hn : NodupKeys m) (k : K) (v : V) :
+    Tbl.get m k = some v ↔ (k, v) ∈ Tbl.live m := by
+  rw [mem_live, ← get?_eq_some_iff hn]
+  unfold Tbl.get
+  cases AMap.get? m k with
+  | none => simp
+  | some o => cases o <;> simp
+
+theorem mem_liveKeys {m : Tbl K V} (hn : NodupKeys m) (k : K) : k ∈ liveKeys m ↔ Tbl.has m k = true := by
+  unfold liveKeys Tbl.has
+  constructor
+  · intro h
+    obtain ⟨e, he, rfl⟩ := List.mem_map.mp h
+    obtain ⟨k', v⟩ := e
+    rw [(get_eq_some_iff hn k' v).mpr he]; rfl
+  · intro h
+    cases hg : Tbl.get m k with
+    | none => rw [hg] at h; cases h
+    | some v => exact List.mem_map.mpr ⟨(k, v), (get_eq_some_iff hn k v).mp hg, rfl⟩
+
+omit [DecidableEq K] in
+theorem count_eq_live (p : K → Bool) (m : Tbl K V) :
+    Tbl.count p m = AMap.sumIf p (fun _ => 1) (Tbl.live m) := by
+  unfold Tbl.count
+  induction m with
+  | nil => rfl
+  | cons hd t ih =>
+    obtain ⟨k', o⟩ := hd
+    cases o with
+    | none => simp [AMap.sumIf, Tbl.live, Tbl.one, ih]
+    | some v' => simp [AMap.sumIf, Tbl.live, Tbl.one, ih]
+
+/-- a count over a duplicate-free table depends only on what `get` answers -/
+theorem count_congr {m1 m2 : Tbl K V} (h1 : NodupKeys m1) (h2 : NodupKeys m2)
+    (h : ∀ k, Tbl.get m1 k = Tbl.get m2 k) (p : K → Bool) : Tbl.count p m1 = Tbl.count p m2 := by
+  rw [count_eq_live, count_eq_live]
+  apply sumIf_perm
+  apply perm_of_mem (nodupKeys_live h1) (nodupKeys_live h2)
+  intro e
+  obtain ⟨k, v⟩ := e
+  rw [← get_eq_some_iff h1, ← get_eq_some_iff h2, h]
+
+end live
+
+
+/-! ### InitGenesis writes exactly the document -/
+
+/-- what the import loops carry along: C14's invariant and duplicate-free tables -/
+structure Good (s : State) : Prop where
+  inv : Inv s
+  nd_classes : NodupKeys s.classes
+  nd_tokens : NodupKeys s.tokens
+  nd_idx : NodupKeys s.idx
+
+theorem good_init : Good ({} : State) :=
+  ⟨by
+    constructor
+    · intro c t; rfl
+    · intro a c t; simp [idxHas, ownerOf, Tbl.has, Tbl.get, AMap.get?]
+    · intro c t h; simp [hasNFT, tokenOf, Tbl.get, AMap.get?] at h
+    · intro c; simp [supplyOf, tokenCount, Tbl.count, AMap.sumIf, AMap.getD, AMap.get?]
+    · intro c; rfl,
+   by simp [NodupKeys, AMap.keys], by simp [NodupKeys, AMap.keys], by simp [NodupKeys, AMap.keys]⟩
+
+/-- the state after `Mint` -/
+def mintedSt (s : State) (c : ClassId) (t : TokenId) (r : TokenRec) (a : Addr) : State :=
+  { classes := s.classes, tokens := Tbl.put s.tokens (c, t) r, owners := Tbl.put s.owners (c, t) a,
+    idx := Tbl.put s.idx (a, c, t) (), supply := AMap.set s.supply c ((supplyOf s c + 1) % u64) }
+
+theorem nkMint_eq {s : State} {c t} (r : TokenRec) (a : Addr) (hc : hasClass s c = true)
+    (hn : hasNFT s c t = false) : nkMint s c t r a = .ok (mintedSt s c t r a) := by
+  unfold nkMint; simp [hc, hn]; rfl
+
+theorem good_minted {s : State} (hg : Good s) {c t} (r : TokenRec) (a : Addr) (hc : hasClass s c = true)
+    (hn : hasNFT s c t = false) : Good (mintedSt s c t r a) :=
+  ⟨inv_nkMint hg.inv (nkMint_eq r a hc hn), hg.nd_classes, nodupKeys_set hg.nd_tokens _ _,
+   nodupKeys_set hg.nd_idx _ _⟩
+
+theorem importNfts_spec (c : ClassId) : ∀ (ns : List NftExp) (acc : State),
+    hasClass acc c = true → (ns.map (·.id)).Nodup → (∀ n ∈ ns, hasNFT acc c n.id = false) → Good acc →
+    ∃ s', importNfts acc c ns = .ok s' ∧ s'.classes = acc.classes ∧ Good s' ∧
+      (∀ n ∈ ns, tokenOf s' c n.id = some n.tok ∧ ownerOf s' c n.id = some n.owner) ∧
+      (∀ c' t', (c' ≠ c ∨ t' ∉ ns.map (·.id)) →
+          tokenOf s' c' t' = tokenOf acc c' t' ∧ ownerOf s' c' t' = ownerOf acc c' t')
+  | [], acc, _, _, _, hg => ⟨acc, rfl, rfl, hg, (fun n hn => by cases hn), fun _ _ _ => ⟨rfl, rfl⟩⟩
+  | n :: rest, acc, hc, hnd, hfree, hg => by
+    have hnd' : n.id ∉ rest.map (·.id) ∧ (rest.map (·.id)).Nodup := List.nodup_cons.mp hnd
+    have hn0 := hfree n List.mem_cons_self
+    have hstep : importNfts acc c (n :: rest) = importNfts (mintedSt acc c n.id n.tok n.owner) c rest := by
+      simp only [importNfts, nkMint_eq n.tok n.owner hc hn0]
+    have hc1 : hasClass (mintedSt acc c n.id n.tok n.owner) c = true := hc
+    have hfree1 : ∀ m ∈ rest, hasNFT (mintedSt acc c n.id n.tok n.owner) c m.id = false := by
+      intro m hm
+      have hne : (c, n.id) ≠ (c, m.id) := by
+        intro e
+        have e2 : n.id = m.id := (Prod.mk.inj e).2
+        exact hnd'.1 (List.mem_map.mpr ⟨m, hm, e2.symm⟩)
+      simp only [hasNFT, tokenOf, mintedSt, get_put, hne, if_false]
+      exact hfree m (List.mem_cons_of_mem _ hm)
+    obtain ⟨s', h1, h2, h3, h4, h5⟩ :=
+      importNfts_spec c rest _ hc1 hnd'.2 hfree1 (good_minted hg n.tok n.owner hc hn0)
+    refine ⟨s', by rw [hstep]; exact h1, h2, h3, ?_, ?_⟩
+    · intro m hm
+      rcases List.mem_cons.mp hm with rfl | hm
+      · have := h5 c m.id (Or.inr hnd'.1)
+        rw [this.1, this.2]
+        simp [tokenOf, ownerOf, mintedSt, get_put]
+      · exact h4 m hm
+    · intro c' t' hne
+      have hne1 : c' ≠ c ∨ t' ∉ rest.map (·.id) := by
+        rcases hne with h | h
+        · exact Or.inl h
+        · exact Or.inr (fun hm => h (by simp only [List.map_cons]; exact List.mem_cons_of_mem _ hm))
+      have := h5 c' t' hne1
+      rw [this.1, this.2]
+      have hk : (c, n.id) ≠ (c', t') := by
+        intro e; cases e
+        rcases hne with h | h
+        · exact h rfl
+        · exact h (by simp)
+      simp [tokenOf, ownerOf, mintedSt, get_put, hk]
+
+theorem importCollections_spec : ∀ (g : Genesis) (acc : State),
+    (g.map (·.id)).Nodup → (∀ c ∈ g, validAddr c.cls.creator = true) →
+    (∀ c ∈ g, (c.nfts.map (·.id)).Nodup) →
+    (∀ c ∈ g, hasClass acc c.id = false ∧ ∀ t, hasNFT acc c.id t = false) → Good acc →
+    ∃ s', importCollections acc g = .ok s' ∧ Good s' ∧
+      (∀ c ∈ g, AMap.get? s'.classes c.id = some c.cls ∧
+          (∀ n ∈ c.nfts, tokenOf s' c.id n.id = some n.tok ∧ ownerOf s' c.id n.id = some n.owner) ∧
+          (∀ t, t ∉ c.nfts.map (·.id) → tokenOf s' c.id t = none)) ∧
+      (∀ c', c' ∉ g.map (·.id) → AMap.get? s'.classes c' = AMap.get? acc.classes c' ∧
+          ∀ t, tokenOf s' c' t = tokenOf acc c' t ∧ ownerOf s' c' t = ownerOf acc c' t)
+  | [], acc, _, _, _, _, hg => ⟨acc, rfl, hg, (fun c hc => by cases hc), fun _ _ => ⟨rfl, fun _ => ⟨rfl, rfl⟩⟩⟩
+  | c :: rest, acc, hids, hcr, htn, hfree, hg => by
+    have hids' : c.id ∉ rest.map (·.id) ∧ (rest.map (·.id)).Nodup := List.nodup_cons.mp hids
+    obtain ⟨hc0, ht0⟩ := hfree c List.mem_cons_self
+    have hg1 : Good { acc with classes := AMap.set acc.classes c.id c.cls } :=
+      ⟨inv_setClass hg.inv _ _, nodupKeys_set hg.nd_classes _ _, hg.nd_tokens, hg.nd_idx⟩
+    have hc1 : hasClass { acc with classes := AMap.set acc.classes c.id c.cls } c.id = true := by
+      simp [hasClass, contains_set]
+    obtain ⟨s1, i1, i2, i3, i4, i5⟩ := importNfts_spec c.id c.nfts _ hc1 (htn c List.mem_cons_self)
+      (fun n _ => ht0 n.id) hg1
+    have hstep : importCollections acc (c :: rest) = importCollections s1 rest := by
+      simp only [importCollections, hcr c List.mem_cons_self, hc0, i1]
+      simp
+    have hfree1 : ∀ c2 ∈ rest, hasClass s1 c2.id = false ∧ ∀ t, hasNFT s1 c2.id t = false := by
+      intro c2 hc2
+      have hne : c.id ≠ c2.id := fun e => hids'.1 (List.mem_map.mpr ⟨c2, hc2, e.symm⟩)
+      obtain ⟨a1, a2⟩ := hfree c2 (List.mem_cons_of_mem _ hc2)
+      constructor
+      · simp only [hasClass, i2, contains_set, hne, decide_false, Bool.false_or]
+        exact a1
+      · intro t
+        have := (i5 c2.id t (Or.inl (Ne.symm hne))).1
+        simp only [hasNFT, this]
+        exact a2 t
+    obtain ⟨s', j1, j2, j3, j4⟩ := importCollections_spec rest s1 hids'.2
+      (fun c2 h => hcr c2 (List.mem_cons_of_mem _ h)) (fun c2 h => htn c2 (List.mem_cons_of_mem _ h)) hfree1 i3
+    refine ⟨s', by rw [hstep]; exact j1, j2, ?_, ?_⟩
+    · intro c2 hc2
+      rcases List.mem_cons.mp hc2 with rfl | hc2
+      · obtain ⟨k1, k2⟩ := j4 c2.id hids'.1
+        refine ⟨?_, ?_, ?_⟩
+        · rw [k1, i2]; exact AMap.get?_set_self _ _ _
+        · intro n hn
+          rw [(k2 n.id).1, (k2 n.id).2]; exact i4 n hn
+        · intro t ht
+          rw [(k2 t).1, (i5 c2.id t (Or.inr ht)).1]
+          have := ht0 t
+          simp only [hasNFT, tokenOf] at this ⊢
+          cases h : Tbl.get acc.tokens (c2.id, t) with
+          | none => rfl
+          | some v => rw [h] at this; cases this
+      · exact j3 c2 hc2
+    · intro c' hc'
+      have hne : c' ≠ c.id := fun e => hc' (by simp [e])
+      have hnr : c' ∉ rest.map (·.id) := fun h => hc' (by simp only [List.map_cons]; exact List.mem_cons_of_mem _ h)
+      obtain ⟨k1, k2⟩ := j4 c' hnr
+      refine ⟨?_, ?_⟩
+      · rw [k1, i2]; exact AMap.get?_set_other _ _ _ _ (Ne.symm hne)
+      · intro t
+        rw [(k2 t).1, (k2 t).2]
+        exact i5 c' t (Or.inl hne)
+
+
+/-! ### the exported document of a well-formed store -/
+
+theorem export_ids (s : State) : (exportGenesis s).map (·.id) = sortDedup (AMap.keys s.classes) := by
+  unfold exportGenesis
+  rw [List.map_map]
+  exact List.map_id' _ |>.symm ▸ (by simp [Function.comp_def])
+
+theorem exportNfts_ids (s : State) (c : ClassId) :
+    (exportNfts s c).map (·.id) = sortDedup (tail (liveKeys s.tokens) c) := by
+  unfold exportNfts
+  rw [List.map_map]
+  simp [Function.comp_def]
+
+theorem mem_export_iff (s : State) (col : Collection) :
+    col ∈ exportGenesis s ↔ ∃ id, id ∈ AMap.keys s.classes ∧
+      col = { id := id, cls := (AMap.get? s.classes id).getD default, nfts := exportNfts s id } := by
+  unfold exportGenesis
+  rw [List.mem_map]
+  constructor
+  · rintro ⟨id, hid, rfl⟩; exact ⟨id, (mem_sortDedup _ _).mp hid, rfl⟩
+  · rintro ⟨id, hid, rfl⟩; exact ⟨id, (mem_sortDedup _ _).mpr hid, rfl⟩
+
+theorem mem_token_ids (s : State) (hn : NodupKeys s.tokens) (c : ClassId) (t : TokenId) :
+    t ∈ sortDedup (tail (liveKeys s.tokens) c) ↔ hasNFT s c t = true := by
+  rw [mem_sortDedup, mem_tail, mem_liveKeys hn]
+  rfl
+
+theorem mem_exportNfts_iff (s : State) (c : ClassId) (n : NftExp) :
+    n ∈ exportNfts s c ↔ ∃ t, t ∈ sortDedup (tail (liveKeys s.tokens) c) ∧
+      n = { id := t, tok := (tokenOf s c t).getD default, owner := (ownerOf s c t).getD "" } := by
+  unfold exportNfts
+  rw [List.mem_map]
+  constructor
+  · rintro ⟨t, ht, rfl⟩; exact ⟨t, ht, rfl⟩
+  · rintro ⟨t, ht, rfl⟩; exact ⟨t, ht, rfl⟩
+
+theorem tokenOf_of_has {s : State} {c t} (h : hasNFT s c t = true) : ∃ r, tokenOf s c t = some r := by
+  unfold hasNFT at h
+  cases hr : tokenOf s c t with
+  | none => rw [hr] at h; cases h
+  | some r => exact ⟨r, rfl⟩
+
+/-- **the export validates** -/
+theorem validate_export (s : State) (hw : WF s) (hi : Inv s) : validateGenesis (exportGenesis s) = true := by
+  unfold validateGenesis
+  rw [List.all_eq_true]
+  intro col hcol
+  obtain ⟨id, hid, rfl⟩ := (mem_export_iff s col).mp hcol
+  obtain ⟨cl, hcl⟩ := (mem_keys_iff _ _).mp hid
+  unfold validateCollection
+  simp only [Bool.and_eq_true, List.all_eq_true]
+  refine ⟨(hw.class_ok id cl hcl).1, ?_⟩
+  intro n hn
+  obtain ⟨t, ht, rfl⟩ := (mem_exportNfts_iff s id n).mp hn
+  have hlive := (mem_token_ids s hw.nd_tokens id t).mp ht
+  obtain ⟨r, hr⟩ := tokenOf_of_has hlive
+  obtain ⟨a, ha⟩ := owner_some_of_has hi hlive
+  have h1 := hw.tok_ok id t r hr
+  have h2 := hw.own_ok id t a ha
+  simp [validateNft, hr, ha, h1.1, h1.2, h2]
+
+theorem optUnit_eq {a b : Option Unit} (h : a.isSome = b.isSome) : a = b := by
+  cases a <;> cases b <;> simp_all
+
+/-- **the import of the export succeeds and answers every query like the exported store** -/
+theorem import_export (s : State) (hw : WF s) (hi : Inv s) :
+    ∃ s', importGenesis (exportGenesis s) = .ok s' ∧ ObsEq s' s ∧ Good s' := by
+  have hids : ((exportGenesis s).map (·.id)).Nodup := by rw [export_ids]; exact nodup_sortDedup _
+  have hcr : ∀ c ∈ exportGenesis s, validAddr c.cls.creator = true := by
+    intro col hcol
+    obtain ⟨id, hid, rfl⟩ := (mem_export_iff s col).mp hcol
+    obtain ⟨cl, hcl⟩ := (mem_keys_iff _ _).mp hid
+    simp only [hcl, Option.getD_some]
+    exact (hw.class_ok id cl hcl).2
+  have htn : ∀ c ∈ exportGenesis s, (c.nfts.map (·.id)).Nodup := by
+    intro col hcol
+    obtain ⟨id, _, rfl⟩ := (mem_export_iff s col).mp hcol
+    simp only [exportNfts_ids]; exact nodup_sortDedup _
+  have hfree : ∀ c ∈ exportGenesis s, hasClass ({} : State) c.id = false ∧ ∀ t, hasNFT ({} : State) c.id t = false :=
+    fun _ _ => ⟨rfl, fun _ => rfl⟩
+  obtain ⟨s', h1, hg, h3, h4⟩ := importCollections_spec (exportGenesis s) {} hids hcr htn hfree good_init
+  -- class records
+  have hclasses : ∀ c, AMap.get? s'.classes c = AMap.get? s.classes c := by
+    intro c
+    by_cases hc : c ∈ AMap.keys s.classes
+    · obtain ⟨cl, hcl⟩ := (mem_keys_iff _ _).mp hc
+      have := (h3 _ ((mem_export_iff s _).mpr ⟨c, hc, rfl⟩)).1
+      simp only [hcl, Option.getD_some] at this
+      rw [this, hcl]
+    · have hn : c ∉ (exportGenesis s).map (·.id) := by rw [export_ids, mem_sortDedup]; exact hc
+      rw [(h4 c hn).1, (get?_eq_none_iff _ _).mpr hc]
+      rfl
+  -- token records
+  have htokens : ∀ c t, tokenOf s' c t = tokenOf s c t := by
+    intro c t
+    by_cases hc : c ∈ AMap.keys s.classes
+    · obtain ⟨_, k2, k3⟩ := h3 _ ((mem_export_iff s _).mpr ⟨c, hc, rfl⟩)
+      simp only at k2 k3
+      cases hl : hasNFT s c t with
+      | true =>
+        obtain ⟨r, hr⟩ := tokenOf_of_has hl
+        have hmem : ({ id := t, tok := (tokenOf s c t).getD default, owner := (ownerOf s c t).getD "" } : NftExp)
+            ∈ exportNfts s c :=
+          (mem_exportNfts_iff s c _).mpr ⟨t, (mem_token_ids s hw.nd_tokens c t).mpr hl, rfl⟩
+        have := (k2 _ hmem).1
+        simp only [hr, Option.getD_some] at this
+        rw [this, hr]
+      | false =>
+        have hnot : t ∉ (exportNfts s c).map (·.id) := by
+          rw [exportNfts_ids, mem_token_ids s hw.nd_tokens, hl]; simp
+        rw [k3 t hnot]
+        unfold hasNFT at hl
+        cases hr : tokenOf s c t with
+        | none => rfl
+        | some r => rw [hr] at hl; cases hl
+    · have hn : c ∉ (exportGenesis s).map (·.id) := by rw [export_ids, mem_sortDedup]; exact hc
+      rw [((h4 c hn).2 t).1]
+      have hnc : hasClass s c = false := by
+        simp only [hasClass, AMap.contains, (get?_eq_none_iff _ _).mpr hc]; rfl
+      cases hl : hasNFT s c t with
+      | true => rw [hi.tok_class c t hl] at hnc; cases hnc
+      | false =>
+        unfold hasNFT at hl
+        cases hr : tokenOf s c t with
+        | none => rfl
+        | some r => rw [hr] at hl; cases hl
+  have hhas : ∀ c t, hasNFT s' c t = hasNFT s c t := fun c t => by unfold hasNFT; rw [htokens]
+  -- owners
+  have howners : ∀ c t, ownerOf s' c t = ownerOf s c t := by
+    intro c t
+    cases hl : hasNFT s c t with
+    | false =>
+      rw [owner_none_of_not_has hi hl, owner_none_of_not_has hg.inv (by rw [hhas]; exact hl)]
+    | true =>
+      have hc : c ∈ AMap.keys s.classes := by
+        have := hi.tok_class c t hl
+        simp only [hasClass, AMap.contains] at this
+        apply Classical.byContradiction
+        intro hnc
+        rw [(get?_eq_none_iff _ _).mpr hnc] at this; cases this
+      obtain ⟨_, k2, _⟩ := h3 _ ((mem_export_iff s _).mpr ⟨c, hc, rfl⟩)
+      simp only at k2
+      obtain ⟨a, ha⟩ := owner_some_of_has hi hl
+      have hmem : ({ id := t, tok := (tokenOf s c t).getD default, owner := (ownerOf s c t).getD "" } : NftExp)
+          ∈ exportNfts s c :=
+        (mem_exportNfts_iff s c _).mpr ⟨t, (mem_token_ids s hw.nd_tokens c t).mpr hl, rfl⟩
+      have := (k2 _ hmem).2
+      simp only [ha, Option.getD_some] at this
+      rw [this, ha]
+  -- owner index
+  have hidx : ∀ x c t, idxHas s' x c t = idxHas s x c t := by
+    intro x c t
+    rw [Bool.eq_iff_iff, hg.inv.idx_owner, hi.idx_owner, howners]
+  -- counts
+  have hcount : ∀ c, tokenCount s' c = tokenCount s c := by
+    intro c
+    exact count_congr hg.nd_tokens hw.nd_tokens (fun k => by obtain ⟨c', t'⟩ := k; exact htokens c' t') _
+  have hbal : ∀ x c, balanceOf s' x c = balanceOf s x c := by
+    intro x c
+    exact count_congr hg.nd_idx hw.nd_idx
+      (fun k => by obtain ⟨x', c', t'⟩ := k; exact optUnit_eq (hidx x' c' t')) _
+  have hsupply : ∀ c, supplyOf s' c = supplyOf s c := by
+    intro c; rw [hg.inv.supply_count, hi.supply_count, hcount]
+  refine ⟨s', ?_, ⟨hclasses, htokens, howners, hidx, hsupply, hbal, hcount⟩, hg⟩
+  unfold importGenesis
+  rw [validate_export s hw hi]
+  exact h1
+
+/-- the export depends only on what the store answers -/
+theorem export_congr {a b : State} (h : ObsEq a b) (na : NodupKeys a.tokens) (nb : NodupKeys b.tokens) :
+    exportGenesis a = exportGenesis b := by
+  have hk : sortDedup (AMap.keys a.classes) = sortDedup (AMap.keys b.classes) := by
+    apply sortDedup_congr
+    intro x
+    rw [mem_keys_iff, mem_keys_iff, h.classes]
+  have hlive : ∀ x, x ∈ liveKeys a.tokens ↔ x ∈ liveKeys b.tokens := by
+    intro x
+    obtain ⟨c, t⟩ := x
+    rw [mem_liveKeys na, mem_liveKeys nb]
+    have := h.tokens c t
+    unfold tokenOf at this
+    unfold Tbl.has; rw [this]
+  have hn : ∀ c, exportNfts a c = exportNfts b c := by
+    intro c
+    unfold exportNfts
+    rw [sortDedup_congr (tail_mem_congr hlive c)]
+    apply List.map_congr_left
+    intro t _
+    rw [h.tokens, h.owners]
+  unfold exportGenesis
+  rw [hk]
+  apply List.map_congr_left
+  intro c _
+  rw [h.classes, hn]
+
+/-- well-formedness and C14's invariant carry over to an observationally equal duplicate-free store -/
+theorem wf_of_obsEq {a b : State} (h : ObsEq a b) (ga : Good a) (hb : WF b) : WF a :=
+  ⟨ga.nd_classes, ga.nd_tokens, ga.nd_idx,
+   fun c cl hcl => hb.class_ok c cl (by rw [← h.classes]; exact hcl),
+   fun c t r hr => hb.tok_ok c t r (by rw [← h.tokens]; exact hr),
+   fun c t x hx => hb.own_ok c t x (by rw [← h.owners]; exact hx)⟩
+
 end Irismod.Proofs.NftGenesis
